@@ -143,7 +143,7 @@ def minimise(c, fam, impl_exe, model_exe, model_args):
     def fails(cc):
         mo, io, _ = run_cases([cc], impl_exe, model_exe, model_args)
         kind, _ = compare(cc, mo["c0"], io["c0.%s" % fam])
-        return kind is not None
+        return kind == "observable"      # the shrunk case must still show a wrong boundary
     cur = c
     budget = 60
     changed = True
